@@ -86,6 +86,11 @@ func opOperands(r *rng.R) (op string, c dec.Ctx, x, y dec.D, aux int64) {
 			c.P = 20
 		}
 		x = smallOperand(r, c)
+		if r.Chance(1, 6) {
+			// arguments beyond any representable result (Exp decides these
+			// without iterating): 23001, -1E+5, 7E+40 ...
+			x = gen.WithAdj(r.Bool(), big.NewInt(r.Range(1, 99999)), r.Range(4, 45))
+		}
 	case "ln", "log10":
 		if c.P > 20 {
 			c.P = 20
